@@ -72,6 +72,8 @@ TYPESETS = {
              "Y": "Leaf", "S": "Leaf2", "R": "KeyLeaf", "CR": "Leaf"},
     "int": {"sync": " -> Generator[int, float, str]", "async": " -> AsyncGenerator[int, float]", "co": " -> int",
             "Y": "int", "S": "float", "R": "str", "CR": "int"},
+    # a bare annotation declares nothing about what is yielded, sent or returned
+    "bare": {"sync": " -> Generator", "async": " -> AsyncIterator", "co": "", "Y": None, "S": None, "R": None},
     "iter": {"sync": " -> Iterator[int]", "async": " -> AsyncIterator[int]", "co": " -> int", "Y": "int", "S": None, "R": None, "CR": "int"},
 }
 class _Types(dict):
@@ -246,7 +248,7 @@ def _gen_value(rng, tname, pool):
 
 def generate(rng, tier):
     kind = rng.choice(["sync", "sync", "async", "async", "co"])
-    types = rng.choice(["leaf", "leaf", "int", "iter", "none"])
+    types = rng.choice(["leaf", "leaf", "int", "iter", "none", "bare"])
     ts = TYPESETS[types]
     plan = {"prop": ID, "kind": kind, "types": types, "eager": rng.random() < 0.5,
             "collect": rng.random() < 0.2, "ctx": rng.choice(["func", "func", "func", "static", "class_deco"]),
@@ -664,7 +666,15 @@ def execute(plan):
     for ci, c in enumerate(cons):
         CTX[ci] = {"script": c["body"], "log": []}
         CTX[100 + ci] = {"script": c["body"], "log": []}
-    mod = kernel.make_module("verif_c08_mod", source(plan))
+    try:
+        mod = kernel.make_module("verif_c08_mod", source(plan))
+    except SyntaxError:
+        raise
+    except Exception as e:  # noqa
+        # the undecorated twin is declared by the same source: what fails is the decoration of a function Python accepts
+        res.violate(f"C08|{plan['kind']}|declare|decoration_refused:{type(e).__name__}",
+                    f"decorating the function failed with {type(e).__name__}: {kernel.clean_text(e, 160)}; types {plan.get('types')}")
+        return res
     faults.set_plan(plan["faults"])
     ts = eff_ts(plan)
     kind = plan["kind"]
